@@ -333,6 +333,17 @@ pub struct StepInfo {
     pub evicted: usize,
     pub recycled_larger: bool,
     pub rollback_streams_delta: i64,
+    /// stream key of a delivered fragment
+    pub key: Option<Key>,
+    pub evicted_keys: Vec<Key>,
+    /// which shape of ConflictingEnd applied
+    pub conflict_shape: Option<&'static str>,
+    /// the accepted fragment ends beyond twice the first fragment's length
+    /// (initial capacity of a fresh buffer): growth path
+    pub grew: bool,
+    /// the new stream differs from another active stream in exactly this
+    /// dimension of the key
+    pub sibling_dim: Option<&'static str>,
 }
 
 #[derive(Clone)]
@@ -581,7 +592,28 @@ impl Exec {
                         ),
                     };
                 }
+                info.key = Some(d.key.clone());
+                if !self.model.exists(&d.key) {
+                    info.sibling_dim = sibling_dimension(&self.model, &d.key);
+                }
+                let first_len = self.model.streams.get(&d.key).map(|s| s.first_len);
                 let (expect, di) = self.model.deliver(&d.key, d.off8, d.more, d.bytes, *ts);
+                if let (Some(fl), Expect::Pending | Expect::Complete(_)) = (first_len, &expect) {
+                    if usize::from(d.off8) * 8 + d.bytes.len() > 2 * fl {
+                        info.grew = true;
+                    }
+                }
+                if let Expect::Err(a) = &expect {
+                    for x in a {
+                        if let ExpErr::ConflictingEnd { previous_end, conflicting_end } = x {
+                            info.conflict_shape = Some(match previous_end {
+                                None => "last_before_received_data",
+                                Some(p) if conflicting_end > p => "beyond_known_end",
+                                Some(_) => "second_last_with_smaller_end",
+                            });
+                        }
+                    }
+                }
                 info.new_stream = !di.existed;
                 info.duplicate = di.was_duplicate;
                 info.overlap = di.overlapped_existing;
@@ -694,6 +726,7 @@ impl Exec {
                 self.pool.retain(|t| *t != victim);
                 if let Some((_, k)) = owners.iter().find(|(t, _)| *t == victim) {
                     self.model.streams.remove(k);
+                    info.evicted_keys.push(k.clone());
                     info.evicted = 1;
                     self.log.str("evicted");
                 }
@@ -709,6 +742,7 @@ impl Exec {
                 for (t, k) in &owners {
                     if t.0 < c {
                         self.model.streams.remove(k);
+                        info.evicted_keys.push(k.clone());
                         info.evicted += 1;
                     }
                 }
@@ -769,6 +803,33 @@ impl Exec {
         }
         Ok(info)
     }
+}
+
+/// If `k` differs from an active stream in exactly one key dimension, which?
+fn sibling_dimension(m: &Model, k: &Key) -> Option<&'static str> {
+    for o in m.streams.keys() {
+        let same = [
+            o.vlans == k.vlans,
+            o.v6 == k.v6 && o.src == k.src && o.dst == k.dst,
+            o.id == k.id,
+            o.proto == k.proto,
+            o.channel == k.channel,
+        ];
+        if same.iter().filter(|s| !**s).count() == 1 {
+            return Some(if !same[0] {
+                "vlan_ids"
+            } else if !same[1] {
+                "addresses_or_version"
+            } else if !same[2] {
+                "identification"
+            } else if !same[3] {
+                "protocol"
+            } else {
+                "channel"
+            });
+        }
+    }
+    None
 }
 
 fn render(r: &Result<Option<IpDefragPayloadVec>, IpDefragError>) -> String {
